@@ -104,6 +104,7 @@ func (p *Parser) parseTransaction() *ast.Transaction {
 
 	if p.current.Type == TokenText {
 		desc := p.current.Value
+		tx.PayeeRange = textRange(p.current.Pos, desc)
 		p.advance()
 
 		if p.current.Type == TokenPipe {
@@ -798,6 +799,14 @@ func parseTags(text string, basePos Position) []ast.Tag {
 	}
 
 	return tags
+}
+
+// textRange is the range of a text that starts at start and stays on its line.
+func textRange(start Position, text string) ast.Range {
+	end := start
+	end.Column += utf16Len(text)
+	end.Offset += len(text)
+	return ast.Range{Start: toASTPosition(start), End: toASTPosition(end)}
 }
 
 // utf16Len is the length of s in UTF-16 code units, the unit columns are counted in.
